@@ -122,7 +122,7 @@ theorem wigmDefeatStep_progress (o : WigmOpts) (hz : o.batchZero = false) {s : S
     mu (wigmDefeatStep A o s) < mu s ∨ (wigmDefeatStep A o s).crash.isSome = true := by
   unfold wigmDefeatStep
   obtain ⟨lv, hm⟩ := minVoteOf_isSome A s.hopeful hh
-  rw [hm]; simp only [hz, Bool.and_false, Bool.false_eq_true, if_false]
+  rw [hm]; simp only [hz, Bool.and_false, Bool.false_and, Bool.false_eq_true, if_false]
   have hmu := mu_breakTie A s (s.hopeful.filter (fun c => A.eq c.vote lv)) "Break tie (defeat)"
   have hfr := breakTie_frame A s (s.hopeful.filter (fun c => A.eq c.vote lv)) "Break tie (defeat)"
   have hmem := breakTie_mem A s (s.hopeful.filter (fun c => A.eq c.vote lv)) "Break tie (defeat)"
